@@ -3,7 +3,7 @@ import gc
 import itertools
 import weakref
 
-from ..replay import guarded, exc_name
+from ..replay import guarded, exc_name, SKIP
 from ..tla import fmap
 
 
@@ -151,15 +151,15 @@ class DispatcherAdapter:
             'reg': frozenset(h for h, o in env.objs.items() if d.is_handler(o)),
             'alive': frozenset(h for h, w in env.weak.items() if w() is not None),
         }
-        q = getattr(d, '_event_queue', None)
-        if isinstance(q, list):
-            try:
-                obs['wb_queue'] = tuple(it[1][0] for it in q)
-            except Exception:
-                obs['wb_queue'] = 'unreadable'
-        hs = getattr(d, '_handlers', None)
-        if isinstance(hs, dict):
-            obs['wb_no_dead_keys'] = all(r() is not None for r in hs)
+        # white box (anchors of C04/C10): compared only while the private attributes keep the anchored shape
+        try:
+            obs['wb_queue'] = tuple(int(it[1][0]) for it in d._event_queue)
+        except Exception:
+            obs['wb_queue'] = SKIP
+        try:
+            obs['wb_no_dead_keys'] = all(r() is not None for r in d._handlers)
+        except Exception:
+            obs['wb_no_dead_keys'] = SKIP
         # listener orders realised (evidence only)
         by_id = {}
         for ent in env.log:
@@ -177,10 +177,8 @@ class DispatcherAdapter:
             'reg': post['reg'],
             'alive': post['alive'],
         }
-        if hasattr(self.env.d, '_event_queue'):
-            exp['wb_queue'] = tuple(it['id'] for it in post['queue'])
-        if hasattr(self.env.d, '_handlers'):
-            exp['wb_no_dead_keys'] = True
+        exp['wb_queue'] = tuple(it['id'] for it in post['queue'])
+        exp['wb_no_dead_keys'] = True
         return exp
 
     def finish(self, stats):
